@@ -19,6 +19,11 @@ import (
 // a mapping whose bin bounds are an increasing uninterpreted function
 type zzMonotoneMapping struct {
 	id   int
+	// slack: Index is bin-consistent only as far as C03 establishes it for the real mappings ("up to a
+	// few ulps"): a value within rounding distance of a bin edge may be indexed to the neighbouring bin.
+	// Stated without float multiplication as LB(i-1) < v < LB(i+2), which the few-ulps statement implies
+	// because bins are many ulps wide.
+	slack bool
 	is   []int
 	lbs  []float64
 	vs   []float64
@@ -37,6 +42,10 @@ func (m *zzMonotoneMapping) name(s string) string {
 }
 func (m *zzMonotoneMapping) Index(v float64) int {
 	i := zzvUFF64MInt(m.name("Index"), v, -(1 << 20), 1<<20)
+	if m.slack {
+		zzvAssume(zzvAnd(m.LowerBound(i-1) < v, v < m.LowerBound(i+2)))
+		return i
+	}
 	// Index is consistent with LowerBound: LB(i) <= v < LB(i+1)
 	zzvAssume(zzvAnd(m.LowerBound(i) <= v, v < m.LowerBound(i+1)))
 	return i
@@ -155,4 +164,77 @@ func ZZ_C17_structure() {
 		zzvAssert("empty-source-gives-empty-result", pos.IsEmpty())
 	}
 	_ = math.Inf
+}
+
+// Non-negativity and locality of the redistributed weight. The weight a target bin receives is
+// (intersectionSize/inSize)*count with inSize > 0 and count > 0, so by the IEEE-754 sign rules (a difference
+// x-y of finite numbers is negative exactly when x < y; quotients and products of a negative and a positive
+// number are never positive; ZZ_C17_sign_rules discharges them as far as the solvers answer) it is negative
+// exactly when the target bin's range [LB(out), LB(out+1)) lies strictly on one side of the scaled source bin.
+// The obligation is therefore stated on the bin bounds the real loop visits: every call the real code makes
+// to the target store concerns a bin that overlaps the scaled source bin. Mappings: any pair with strictly
+// increasing positive bin bounds; the new mapping's Index is bin-consistent only up to a neighbouring bin,
+// which is all that C03 establishes for the real mappings ("up to a few ulps").
+func ZZ_C17_weights_nonnegative() {
+	zzvBound("weights", "one source bin (sparse store, symbolic index, symbolic positive finite float64 weight) on either side; scale factor from {1/2, 1, 2} (exact products; the old mapping's bounds being arbitrary increasing positive numbers, so are the scaled ones); old and new mapping known through strictly increasing positive bin bounds, the new Index consistent with them up to one neighbouring bin; at most 3 target bins follow the first one below the scaled source bin's upper bound; recording target stores")
+	zzvAssumption("sign of a redistributed weight = sign of min(outHigh,inHigh)-max(outLow,inLow), by the IEEE-754 sign rules for -, / and * (inSize > 0, count > 0)")
+	zzvExactFloatsOnly()
+	zzvMapOrders(2)
+	zzvSolverSeconds(120)
+	old, nw := &zzMonotoneMapping{id: 0}, &zzMonotoneMapping{id: 1, slack: true}
+	s := NewDDSketch(old, store.NewSparseStore(), store.NewSparseStore())
+	idx := zzvMInt("index", -(1 << 19), 1<<19)
+	w := zzvFloat64("weight")
+	zzvAssume(zzvAnd(w > 0, w < 1e300))
+	neg := zzvChoose("side", 2) == 1
+	if neg {
+		s.negativeValueStore.AddWithCount(idx, w)
+	} else {
+		s.positiveValueStore.AddWithCount(idx, w)
+	}
+	scale := []float64{0.5, 1, 2}[zzvChoose("scale", 3)]
+	lo := old.LowerBound(idx) * scale
+	hi := old.LowerBound(idx+1) * scale
+	zzvAssume(zzvAnd(lo > 1e-290, zzvAnd(lo < hi, hi < 1e290)))
+	first := nw.Index(lo)
+	zzvAssume(nw.LowerBound(first+3) >= hi)
+	zzvCover("pre-state")
+	pos, ng := &zzRecStore{}, &zzRecStore{}
+	s.ChangeMapping(nw, pos, ng, scale)
+	rec, other := pos, ng
+	if neg {
+		rec, other = ng, pos
+	}
+	zzvAssert("other-side-stays-empty", other.IsEmpty())
+	n := 0
+	rec.ForEach(func(i int, c float64) bool {
+		n++
+		outLo, outHi := nw.LowerBound(i), nw.LowerBound(i+1)
+		zzvAssert("no-negative-weight:target-bin-does-not-lie-beside-the-scaled-source-bin", zzvAnd(outHi >= lo, outLo <= hi))
+		return false
+	})
+	zzvAssert("at-most-four-target-bins", n <= 4)
+}
+
+// The IEEE-754 sign rules the harness above relies on, as solver obligations over all float64 values.
+func ZZ_C17_sign_rules() {
+	zzvBound("sign-rules", "all finite float64 operands")
+	zzvExactFloatsOnly()
+	zzvSolverSeconds(120)
+	x, y := zzvFloat64("x"), zzvFloat64("y")
+	zzvAssume(zzvAnd(zzvAnd(x > -1e308, x < 1e308), zzvAnd(y > -1e308, y < 1e308)))
+	zzvCover("pre-state")
+	d := x - y
+	zzvAssert("difference-negative-iff-less", (d < 0) == (x < y))
+	zzvAssert("difference-positive-iff-greater", (d > 0) == (x > y))
+}
+func ZZ_C17_sign_rules_quotient_product() {
+	zzvBound("sign-rules", "all finite float64 operands, positive divisor / multiplier")
+	zzvExactFloatsOnly()
+	zzvSolverSeconds(120)
+	x, y := zzvFloat64("x"), zzvFloat64("y")
+	zzvAssume(zzvAnd(zzvAnd(x > -1e308, x < 1e308), zzvAnd(y > 0, y < 1e308)))
+	zzvCover("pre-state")
+	zzvAssert("quotient-by-positive-keeps-sign", zzvAnd(zzvImplies(x < 0, x/y <= 0), zzvImplies(x > 0, x/y >= 0)))
+	zzvAssert("product-with-positive-keeps-sign", zzvAnd(zzvImplies(x < 0, x*y <= 0), zzvImplies(x > 0, x*y >= 0)))
 }
